@@ -384,6 +384,35 @@ def generate(repo):
             dflt.add(literal(n.args[1]))
     if base is None or len(dflt) != 1:
         raise Untranslatable("getBH_dict_level2: base rank table / default rank not found")
+
+    # the pre-computation completeness checks of _getBH_level2 and the list they are given:
+    #   sources, src_list = format_src_inputs(sources)   (src_list = sources with collections FLATTENED)
+    #   check_dimensions(<name>) ; check_excitations(<name>)
+    l2 = get_fn(fw, "_getBH_level2")
+    flat = []
+    for n in ast.walk(l2):
+        if isinstance(n, ast.Assign) and isinstance(n.value, ast.Call) and is_name(n.value.func, "format_src_inputs"):
+            t = n.targets[0]
+            if not (len(n.targets) == 1 and isinstance(t, ast.Tuple) and len(t.elts) == 2
+                    and all(isinstance(x, ast.Name) for x in t.elts) and len(n.value.args) == 1
+                    and not n.value.keywords):
+                fail(n, "format_src_inputs call")
+            flat.append(t.elts[1].id)
+    if len(flat) != 1:
+        raise Untranslatable("_getBH_level2: expected exactly one `sources, src_list = format_src_inputs(sources)`")
+    ccalls = []
+    for n in ast.walk(l2):
+        if isinstance(n, ast.Call) and isinstance(n.func, ast.Name) \
+                and n.func.id in ("check_dimensions", "check_excitations"):
+            if len(n.args) != 1 or n.keywords or not isinstance(n.args[0], ast.Name):
+                fail(n, "completeness check call")
+            ccalls.append((n.lineno, n.func.id, n.args[0].id))
+    ccalls.sort()
+    out.append("(* _getBH_level2: the name bound to the FLATTENED source list (collections replaced by their sources) and\n"
+               "   every call of a completeness check with the name of the list it is given *)\n"
+               f"Definition flattened_sources_name : string := {cstr(flat[0])}.\n"
+               "Definition completeness_calls : list (string * string) := "
+               + clist([f"({cstr(f)}, {cstr(a)})" for _, f, a in ccalls]) + ".\n")
     out.append("Definition dict_base_ndim : list (string * Z) := "
                + clist([f"({cstr(k)}, {coq_z(v)})" for k, v in base]) + ".\n")
     out.append(f"Definition dict_default_ndim : Z := {coq_z(dflt.pop())}.\n")
